@@ -2,7 +2,7 @@ import ast
 
 from guppylang_internals.ast_util import find_nodes, get_type, loop_in_ast
 from guppylang_internals.checker.cfg_checker import CheckedBB, CheckedCFG
-from guppylang_internals.checker.core import Place, contains_subscript
+from guppylang_internals.checker.core import Place, Variable, contains_subscript
 from guppylang_internals.checker.errors.generic import (
     InvalidUnderDagger,
     UnsupportedError,
@@ -51,6 +51,22 @@ def check_invalid_under_dagger(
             assign = next(iter(found))
             err = InvalidUnderDagger(assign, "Assignment")
             raise GuppyError(err)
+
+
+def _assigns_only_temporaries(
+    node: ast.Assign | ast.AnnAssign | ast.AugAssign,
+) -> bool:
+    """Checks if an assignment only binds compiler-generated temporaries (introduced
+    when desugaring conditional and short-circuit expressions)."""
+    from guppylang_internals.cfg.builder import is_tmp_var
+
+    targets = node.targets if isinstance(node, ast.Assign) else [node.target]
+    return all(
+        isinstance(t, PlaceNode)
+        and isinstance(t.place, Variable)
+        and is_tmp_var(t.place.name)
+        for t in targets
+    )
 
 
 class BBUnitaryChecker(ast.NodeVisitor):
@@ -104,7 +120,7 @@ class BBUnitaryChecker(ast.NodeVisitor):
         pass
 
     def _check_assign(self, node: ast.Assign | ast.AnnAssign | ast.AugAssign) -> None:
-        if UnitaryFlags.Dagger in self.flags:
+        if UnitaryFlags.Dagger in self.flags and not _assigns_only_temporaries(node):
             raise GuppyError(InvalidUnderDagger(node, "Assignment"))
         if node.value is not None:
             self.visit(node.value)
